@@ -27,10 +27,10 @@ ASSUMPTIONS = [
     'QR(L, M): 1 <= M <= L (the code calls sys.exit otherwise); QI(L): L >= 1; cost functions: even n >= 4, positive lam, dE, parameters for which the internal QR(d, m) is defined (d >= m)',
 ]
 OPEN_STATEMENTS = [
-    'lambda_norm: CLOSED for real symmetric inputs. lambda_norm_spec (Model of lambda_norm = sum of |c| over the non-identity strings of the Model of jordan_wigner(DiagonalCoulombHamiltonian), all real, image acts like the Spec operator), pauli_decomposition_unique (trace orthogonality: the Spec oracle jwOneNorm of any fermionic operator equals the sum of |c| of any canonical Pauli form acting like it) and lambda_norm_oracle (jwOneNorm n (const + sum T a+a + sum V nn) false = some (lambda_norm)) hold for every n; the only hypothesis is the exact-run flag jwDCHOk of the Model transform, evaluated by the driver (c19.spec.dch_pauli_norm) on every generated real Hamiltonian. Hermitian one_body with imaginary entries: correspondence + oracle only (the Model of lambda_norm takes real matrices).',
-    'one_norm_spec (get_one_norm_int(_woconst) = 1-norm of the Jordan-Wigner coefficients for eight-fold symmetric integrals): open as a theorem — pauli_decomposition_unique reduces it to reading off the coefficients of the Model image jwInteractionOp of the spin-orbital Hamiltonian (identity, Z, ZZ, hopping strings with and without an extra / missing Z, four-letter strings, with all index coincidences), which is not done. PROVED: one_norm_spec_partial — for every n, real symmetric h and Coulomb-type two-body integrals (g_pqrs = 0 unless s = p and r = q, g_pqqp = g_qppq; contains g = 0) the Model of get_one_norm_int_woconst equals the Spec oracle jwOneNorm of molOp (hypothesis: exact-run flag of the Model transform, evaluated by the driver op c19.spec.mol_coulomb on every generated Coulomb-type case); MISSING: exchange-type g_pqpq / g_ppqq (their opposite-spin parts are genuine four-index terms: per orbital pair the surviving Pauli words are XYYX, YXXY, XXYY, YYXX on the four spin orbitals with coefficient +-K/4 — PROVED for one orbital pair: one_norm_exchange_pair_partial — spin flip + pair hopping act like K/4 (XYYX - XXYY - YYXX + YXXY) and their Spec-oracle 1-norm is |K|; still missing: the assembly over all pairs with the density-density part (same-spin exchange turns V into (J - K)/2), pairwise different keys of the merged image and the normal form of get_one_norm_int_woconst with exchange entries) and general three- / four-index integrals. Also proved (one_norm_identity_coefficient, all integrals, no symmetry): the identity coefficient Tr(H)/4^n of the Spec operator molOp is htilde, and get_one_norm_int = |htilde| + get_one_norm_int_woconst, i.e. _woconst drops exactly the identity term (also evaluated by the driver: c19.spec.identity_coef, c19.spec.mol_op). The non-identity part is checked exactly by the Spec oracle jwOneNorm (Pauli decomposition from the Spec ladder action on all Fock states) for n_orb <= 2 (3 on a sample).',
+    'lambda_norm: CLOSED for ALL real symmetric inputs without side condition (lambda_norm_oracle_all: the exact-run hypothesis is discharged with deletion threshold 0, where every += is exact; likewise one_norm_spec_partial_all for the Coulomb class, with and without the identity). Details: lambda_norm_spec (Model of lambda_norm = sum of |c| over the non-identity strings of the Model of jordan_wigner(DiagonalCoulombHamiltonian), all real, image acts like the Spec operator), pauli_decomposition_unique (trace orthogonality: the Spec oracle jwOneNorm of any fermionic operator equals the sum of |c| of any canonical Pauli form acting like it) and lambda_norm_oracle (jwOneNorm n (const + sum T a+a + sum V nn) false = some (lambda_norm)) hold for every n; the only hypothesis is the exact-run flag jwDCHOk of the Model transform, evaluated by the driver (c19.spec.dch_pauli_norm) on every generated real Hamiltonian. Hermitian one_body with imaginary entries: correspondence + oracle only (the Model of lambda_norm takes real matrices).',
+    'one_norm_spec (get_one_norm_int(_woconst) = 1-norm of the Jordan-Wigner coefficients for eight-fold symmetric integrals): open as a theorem — pauli_decomposition_unique reduces it to reading off the coefficients of the Model image jwInteractionOp of the spin-orbital Hamiltonian (identity, Z, ZZ, hopping strings with and without an extra / missing Z, four-letter strings, with all index coincidences), which is not done. PROVED: one_norm_spec_partial — for every n, real symmetric h and Coulomb-type two-body integrals (g_pqrs = 0 unless s = p and r = q, g_pqqp = g_qppq; contains g = 0) the Model of get_one_norm_int_woconst equals the Spec oracle jwOneNorm of molOp (hypothesis: exact-run flag of the Model transform, evaluated by the driver op c19.spec.mol_coulomb on every generated Coulomb-type case); for the same class one_norm_int_spec_partial gives get_one_norm_int = jwOneNorm(..., with identity); one_norm_int_of_woconst reduces, for ALL integrals, the statement for get_one_norm_int to the one for get_one_norm_int_woconst; MISSING: exchange-type g_pqpq / g_ppqq (their opposite-spin parts are genuine four-index terms: per orbital pair the surviving Pauli words are XYYX, YXXY, XXYY, YYXX on the four spin orbitals with coefficient +-K/4 — PROVED for one orbital pair: one_norm_exchange_pair_partial — spin flip + pair hopping act like K/4 (XYYX - XXYY - YYXX + YXXY) and their Spec-oracle 1-norm is |K|; still missing: the assembly over all pairs with the density-density part (same-spin exchange turns V into (J - K)/2), pairwise different keys of the merged image and the normal form of get_one_norm_int_woconst with exchange entries) and general three- / four-index integrals. Also proved (one_norm_identity_coefficient, all integrals, no symmetry): the identity coefficient Tr(H)/4^n of the Spec operator molOp is htilde, and get_one_norm_int = |htilde| + get_one_norm_int_woconst, i.e. _woconst drops exactly the identity term (also evaluated by the driver: c19.spec.identity_coef, c19.spec.mol_op). The non-identity part is checked exactly by the Spec oracle jwOneNorm (Pauli decomposition from the Spec ladder action on all Fock states) for n_orb <= 2 (3 on a sample).',
     'mu: the Model computes the least mu with eps*n*2^mu >= 1 and that minimality is a theorem (sub_bit_precision_spec); the implementation returns mu+1 for eps*n = 2^-k with k in {29, 31, 39, 47, 51, 55, 58, 59, 62} because math.log(x, 2) is inexact there (not a violation of the property; such inputs are not generated).',
-    'cost functions: PROVED beyond total = step x iterations: cost_sparse has a positive per-step cost for all parameters and its total is monotone in lam and 1/dE (sparse_total_monotone); compute_cost: per-step cost independent of lam, dE and total monotone when the per-step cost is non-negative (thc_total_monotone); QR2 / QI2 minimise over ALL k1, k2 >= 1 for table sizes <= 2^16 (qr2_global_minimiser, qi2_global_minimiser; larger tables: searched grid only).',
+    'cost functions: PROVED beyond total = step x iterations: cost_sparse has a positive per-step cost for all parameters and its total is monotone in lam and 1/dE (sparse_total_monotone); compute_cost: per-step cost independent of lam, dE and total monotone when the per-step cost is non-negative (thc_total_monotone), which holds — the per-step cost is positive — whenever M >= 1 and beta >= 2 (thc_total_monotone_pos); QR2 / QI2 minimise over ALL k1, k2 >= 1 for table sizes <= 2^16 (qr2_global_minimiser, qi2_global_minimiser; larger tables: searched grid only).',
     'compute_cost / cost_sparse: the number of rotation bits br (arg-min of an arccos/sin expression) and np.pi are outside the theorems (parameters / rational enclosure); the ancilla counts are covered by correspondence only. cost_estimator: Model for all its integer / rational arithmetic and theorem cost_estimator_select_spec for the selection loop (first strict minimum among the feasible layouts); the failure probabilities (irrational powers) are outside the Lean Model — checked against an independent float evaluation in the harness — and no optimality statement beyond the searched grid is made.',
 ]
 
@@ -1065,6 +1065,10 @@ def failure(nq, nt, dist, spec, f_rounds, p_err, portion, routing, fcount):
     return min(1.0, data + factory_failure(spec, p_err) * nt)
 
 
+# datetime.timedelta.max in microseconds
+TIMEDELTA_MAX_US = (999999999 * 86400 + 86399) * 10 ** 6 + 999999
+
+
 def rel_close(x, y):
     return x == y or abs(x - y) <= 1e-9 * max(abs(x), abs(y))
 
@@ -1079,7 +1083,11 @@ def stream_physical(ctx, pc):
                'unit cell, distillation error of the AutoCCZ / T factories, data failure; compared with the implementation to 1e-9 '
                'relative, counted as float comparisons) and handed to the Model, the selected layout compared with the Model '
                'selection loop; every crossing of physical_error_rate in {1e-3, 1e-4, 3e-3, 5e-4} x portion_of_bounding_box in '
-               '{1, 0.5, 0.25, 2} (positional and keyword), direct AlgorithmParameters.estimate_cost calls with other routing '
+               '{1, 0.5, 0.25, 2} (positional and keyword); joint grid physical_error_rate in {1e-3, 3e-4, 1e-4, 1e-5} x '
+               'portion_of_bounding_box in {1, 0.5, 0.1, 0.05, 0.04, 0.03, 0.01} x sizes 10..10^4 qubits, 10^4..10^12 Toffolis with an '
+               'independent brute-force search (candidates from integer formulas on the Model factory table, admissibility from '
+               'the float model, minimiser through the Model loop; 3 sizes per cell quick, 10 after drift, 26 thorough); '
+               'direct AlgorithmParameters.estimate_cost calls with other routing '
                'overheads / factory counts; Spec: the returned layout is the first strict minimum '
                'of qubits x duration among the feasible ones; non-trivial = every case')
     rng = rng_for(ctx.seed, 'c19-phys')
@@ -1237,6 +1245,121 @@ def stream_physical(ctx, pc):
             for nq, nt in picks:
                 one_estimator(nq, nt, p_err, portion, rng.choice(['positional', 'keywords']))
     b.flush()
+
+    # ---- joint grid of the two keywords: an independent brute-force search over the full candidate grid.  Candidate
+    # qubit counts / rounds come from plain integer formulas on the factory table of the Lean Model (not from the
+    # library), feasibility from the independent float failure model with the GIVEN rate and portion; the Model
+    # selection loop (first strict minimum of qubits x rounds among the feasible ones) must return the library's answer
+    model_facs = ctx.driver.run([{'op': 'c19.phys.factories'}])[0]       # [[footprint, [rounds num, den]], ...]
+    fac_cache = {}
+
+    def joint_case(nq, nt, p_err, portion):
+        case = {'fn': 'cost_estimator', 'num_logical_qubits': nq, 'num_toffoli': nt, 'physical_error_rate': p_err,
+                'portion_of_bounding_box': portion, 'argument_types': 'keywords', 'joint_grid': True}
+        s.case(case)
+        s.count('cost_estimator:joint-grid')
+        s.count('joint:physical_error_rate=%g' % p_err)
+        s.count('joint:portion_of_bounding_box=%g' % portion)
+        (res, exc) = call(pc.cost_estimator, nq, nt, physical_error_rate=p_err, portion_of_bounding_box=portion)
+        specs = factory_specs(p_err)
+        table = model_facs if p_err == 0.001 else model_facs[1:]
+        if exc == 'OverflowError':
+            # the loop compares physical_qubit_count * duration (int * timedelta): beyond 999999999 days that product
+            # cannot be represented.  Expected exactly when some admissible candidate exceeds the range (known finding).
+            storage = -((-3 * nq) // 2)
+            over = False
+            for spec, (footprint, rnd) in zip(specs, table):
+                rounds = int(Fraction(nt, 4) * Fraction(rnd[0], rnd[1]))
+                ffail = factory_failure(spec, p_err)
+                for dist in dists:
+                    qubits = storage * 2 * (dist + 1) ** 2 + 4 * footprint
+                    fail = min(1.0, portion * topo_cell(dist, p_err) * storage * rounds + ffail * nt)
+                    if fail <= 0.1 + 1e-9 and qubits * rounds > TIMEDELTA_MAX_US:
+                        over = True
+            if over:
+                s.count('joint:timedelta-overflow')
+                s.violate('cost_estimator raises OverflowError: physical_qubit_count * duration of an admissible candidate '
+                          'exceeds the range of datetime.timedelta', dict(case, timedelta_overflow_expected=True), {})
+                return
+        if exc:
+            s.violate('unexpected exception ' + exc, case, {})
+            return
+        best, params = res
+        if p_err not in fac_cache:
+            fl, exc = call(lambda: list(pc.iter_known_factories(physical_error_rate=p_err)))
+            fac_cache[p_err] = None if exc else fl
+        facs_p = fac_cache[p_err]
+        if facs_p is None or len(facs_p) != len(specs) or len(table) != len(specs):
+            s.violate('iter_known_factories(%g): unexpected number of factories' % p_err, case, {})
+            return
+        storage = -((-3 * nq) // 2)                      # ceil(1.5 nq)
+        cands, feas, fails, ambiguous = [], [], [], False
+        for spec, (footprint, rnd) in zip(specs, table):
+            f_rounds = Fraction(rnd[0], rnd[1])
+            rounds = int(Fraction(nt, 4) * f_rounds)     # floor
+            ffail = factory_failure(spec, p_err)
+            for dist in dists:
+                qubits = storage * 2 * (dist + 1) ** 2 + 4 * footprint
+                fail = min(1.0, portion * topo_cell(dist, p_err) * storage * rounds + ffail * nt)
+                if abs(fail - 0.1) <= 1e-9:
+                    ambiguous = True
+                cands.append([qubits, rounds])
+                feas.append(bool(fail <= 0.1))
+                fails.append(fail)
+        if ambiguous:
+            s.discards += 1
+            s.count('failure-probability-at-threshold')
+            return
+        if best is None:
+            s.count('joint:no-feasible-layout')
+            impl_best = None
+        else:
+            idx = None
+            for fi, fac in enumerate(facs_p):
+                if fac == params.magic_state_factory and params.logical_data_qubit_distance in dists:
+                    idx = fi * len(dists) + dists.index(params.logical_data_qubit_distance)
+                    break
+            us = best.duration // datetime.timedelta(microseconds=1)
+            if idx is None or best.duration != datetime.timedelta(microseconds=us):
+                s.violate('cost_estimator: the returned parameters are not one of the candidates of the searched grid', case, {})
+                return
+            if params.physical_error_rate != p_err or params.proportion_of_bounding_box != portion:
+                s.violate('cost_estimator: the returned parameters do not carry the requested error rate / bounding box', case,
+                          {'physical_error_rate': params.physical_error_rate,
+                           'proportion_of_bounding_box': params.proportion_of_bounding_box})
+                return
+            if not close(float(best.algorithm_failure_probability), fails[idx]):
+                s.violate('cost_estimator: the failure probability of the returned layout differs from the independent '
+                          'evaluation with the given rate and bounding box', case,
+                          {'implementation': float(best.algorithm_failure_probability), 'independent': fails[idx]})
+                return
+            impl_best = [idx, int(best.physical_qubit_count), int(us)]
+        b.add(case, {'cands': cands, 'best': impl_best},
+              {'op': 'c19.phys.select', 'nq': nq, 'nt': nt, 'feasible': feas, 'with_t': p_err == 0.001},
+              [('cost_estimator: the returned layout is not the brute-force minimiser of qubits x duration (first strict '
+                'minimum in loop order) among all factory x distance candidates that are admissible for the given rate '
+                'and bounding box', {'op': 'c19.spec.select', 'cands': cands, 'feasible': feas, 'res': impl_best}, is_true)])
+    jrates = [1.0e-3, 3.0e-4, 1.0e-4, 1.0e-5]
+    jportions = [1.0, 0.5, 0.1, 0.05, 0.04, 0.03, 0.01]
+    jsizes = [(nq_, nt_) for nq_ in (10, 37, 100, 300, 1000, 2142, 5000, 10000)
+              for nt_ in (10 ** 4, 10 ** 6, 10 ** 8, 10 ** 9, 10 ** 10, 10 ** 12)]
+    jsizes = [jsizes[i] for i in range(0, len(jsizes), 2)] + [(1000, 10 ** 9), (100, 10 ** 8)]
+    named = [(1000, 10 ** 9), (100, 10 ** 8)]
+    cell = 0
+    for p_err in jrates:
+        for portion in jportions:
+            if ctx.tier != 'quick':
+                picks = jsizes
+            elif ctx.drift:
+                # a quick run after source drift: every cell of the grid with 10 sizes (the full list of 26 at thorough)
+                picks = [jsizes[i] for i in range((cell % 2), len(jsizes) - 2, 2)][:8] + named
+            else:
+                picks = [named[cell % 2], jsizes[rng.randrange(len(jsizes))],
+                         (rng.randint(10, 10 ** 4), rng.randint(10 ** 4, 10 ** 12))]
+            cell += 1
+            for nq, nt in picks:
+                joint_case(nq, nt, p_err, portion)
+    b.flush()
     # direct AlgorithmParameters(...).estimate_cost calls: routing overhead, factory count, bounding box, error rate
     for _ in range(budget(t, 150, 800)):
         p_err = rng.choice(rates)
@@ -1277,6 +1400,28 @@ def stream_physical(ctx, pc):
                'routing': fr(routing), 'fcount': fcount})
     b.flush()
     return s
+
+
+def classify(v):
+    case = v.get('input', {}) or {}
+    if case.get('timedelta_overflow_expected') and v.get('what', '').startswith('cost_estimator raises OverflowError'):
+        return 'F19-cost-estimator-timedelta-overflow'
+    return None
+
+
+def probe_known(ctx, k):
+    """replay the listed witness on the real code: True while it still fails"""
+    import importlib
+    if k.get('id') != 'F19-cost-estimator-timedelta-overflow':
+        return False
+    pc = importlib.import_module('openfermion.resource_estimates.surface_code_compilation.physical_costing')
+    try:
+        pc.cost_estimator(4860, 264227406989)
+    except OverflowError:
+        return True
+    except Exception:  # noqa: BLE001
+        return False
+    return False
 
 
 def run(ctx):
